@@ -86,8 +86,9 @@ class GenTap:
         self.hits = 0
         tap = self
 
-        def gen_borehole_config(field, y_space, x_space, no_go=None, rotate=0, intersection_tolerance=1e-6):
-            r = tap.orig(field, y_space, x_space, no_go=no_go, rotate=rotate, intersection_tolerance=intersection_tolerance)
+        def gen_borehole_config(field, y_space, x_space, *a_, **kw_):
+            r = tap.orig(field, y_space, x_space, *a_, **kw_)
+            rotate = kw_.get("rotate", a_[1] if len(a_) > 1 else 0)
             tap.hits += 1
             tap.calls.append((float(rotate), np.array(r, dtype=float, copy=True).reshape(-1, 2)))
             return r
